@@ -101,7 +101,8 @@ class HttpGen:
             return [f"backdate {c} {r.choice([1, 13, 14, 15, 20, 21, 22, 40]) * 86400 + r.choice([-3600, 3600])}"]
         if k == "setcounter":
             return [f"setcounter {c} {r.choice([0, 1, 98, 99, 100, 148, 149, 150, 1000])}"]
-        return ["reopen"]
+        # close-and-reopen, or hand over to another server instance on the same store
+        return ["reopen"] if r.random() < 0.5 else [f"inst {r.randrange(3)}"]
 
 
 def py_encode(lib_r):
@@ -144,7 +145,10 @@ class C14(HttpProp):
             ops = []
             if k % 4 == 1:
                 ops.append(f"cfg {rng.choice([1, 2, 3])} {rng.choice([2, 3, 4])}")
+            handover = k % 5 == 2        # several server instances on one store, used in turn
             for _ in range(rng.randint(8, length)):
+                if handover and rng.random() < 0.5:
+                    ops.append(f"inst {rng.randrange(2)}")
                 ops += g.op()
             out.append(Case(f"c14-{k}", ops, mode="http"))
         return out
